@@ -6,16 +6,53 @@ import QbiceVerif.Lemmas.EngineCoreFw7
 namespace Qbice.CoreFw
 open Qbice.Core (Prog Err Write SetRes allVals evalProg applyWorld Sat TraceOK)
 
-theorem projTfcChanged_false {p : Program} {s : St} (inv : Inv p s) (k : Key) (t : List Key) :
-    projTfcChanged s k t = false := by
-  simp only [projTfcChanged]
-  cases h : s.nodes k with
-  | none => rfl
-  | some o => simp [inv.noProj k o h]
+/-- the recorded run of `k` cannot be kept: it is broken, or `k` is a projection that is not verified
+    and has a callee whose backward projection is pending -/
+def Bad (s : St) (k : Key) : Prop :=
+  Broken s k ∨ ∃ n f o, s.nodes k = some n ∧ n.kind = .projection ∧ n.lastVerified ≠ s.epoch ∧
+    (f, o) ∈ n.deps ∧ hasPending s f = true
 
-theorem execute_spec {p : Program} (wf : WF p) (np : NoProj p) {q : Q} {k : Key} (hq : QSpec p q k)
-    {d : NodeDef} (hp : p[k]? = some d) (hki : d.kind ≠ .input) (hke : d.kind ≠ .external)
-    {s : St} (inv : Inv p s) (hj : Just p s k) (hbr : Broken s k) :
+theorem hasPending_touches {b : Nat} {s s' : St} (t : Touches b s s') {f : Key}
+    (h : hasPending s f = true) : hasPending s' f = true := by
+  cases hf : s.nodes f with
+  | none => simp [hasPending, hf] at h
+  | some nf =>
+    obtain ⟨nf', hf', hp'⟩ := t.2 f nf hf (by simpa [hasPending, hf] using h)
+    simp [hasPending, hf', hp']
+
+theorem Bad.frame {p : Program} {s s' : St} {k : Key} (h : Bad s k) (inv : Inv p s)
+    (f : Frame p s s') (t : Touches k s s') : Bad s' k := by
+  have hk : s'.nodes k = s.nodes k := t.1 k (Nat.le_refl _)
+  rcases h with h | ⟨n, fk, o, hn, hkp, hnv, hm, hp⟩
+  · exact Or.inl (h.frame inv f hk)
+  · exact Or.inr ⟨n, fk, o, by rw [hk]; exact hn, hkp, by rw [f.epoch]; exact hnv, hm, hasPending_touches t hp⟩
+
+theorem Bad.not_solid {s : St} {k : Key} (h : Bad s k) : ¬ Solid s k := by
+  rcases h with h | ⟨n, fk, o, hn, hkp, hnv, hm, hp⟩
+  · exact h.not_solid
+  · exact not_solid_of_pending hn hkp hnv hm hp
+
+theorem Bad.not_nGood {s : St} {k : Key} (h : Bad s k) :
+    ∀ n, s.nodes k = some n → n.kind = .normal → ¬ NGood s k := by
+  intro n hn hkn
+  rcases h with h | ⟨n', fk, o, hn', hkp, _⟩
+  · exact h.not_nGood hn
+  · rw [hn] at hn'; cases hn'; rw [hkn] at hkp; cases hkp
+
+theorem Why.frame {p : Program} {s s' : St} {k : Key} (h : Why p s k) (f : Frame p s s')
+    (t : Touches k s s') : Why p s' k := by
+  have hk : s'.nodes k = s.nodes k := t.1 k (Nat.le_refl _)
+  have hnv : ¬ Verified s' k := by
+    rintro ⟨n, hn, hv⟩
+    exact h.not_verified ⟨n, by rw [← hk]; exact hn, by rw [hv, f.epoch]⟩
+  rcases h with h | ⟨_, n, fk, o, hn, hkp, hm, hp⟩
+  · refine Or.inl ⟨hnv, ?_⟩
+    rw [hk, f.cur]; exact h.2
+  · exact Or.inr ⟨hnv, n, fk, o, by rw [hk]; exact hn, hkp, hm, hasPending_touches t hp⟩
+
+theorem execute_spec {p : Program} (wf : WF p) (pf : NoProjOverProj p) {q : Q} {k : Key}
+    (hq : QSpec p q k) {d : NodeDef} (hp : p[k]? = some d) (hki : d.kind ≠ .input)
+    (hke : d.kind ≠ .external) {s : St} (inv : Inv p s) (hwhy : Why p s k) (hbad : Bad s k) :
     Sat (execute q k d s) (QPost p k s) := by
   have hrun := runProg_spec hq d.prog {} s (wf k d hp hki hke).1 inv (AccOK.nil p k s)
   unfold execute
@@ -26,17 +63,17 @@ theorem execute_spec {p : Program} (wf : WF p) (np : NoProj p) {q : Q} {k : Key}
     rw [hr] at hrun
     obtain ⟨i1, f1, t1, a1, _, tr⟩ := hrun
     simp only at i1 f1 t1 a1 tr ⊢
-    have hk1 : s1.nodes k = s.nodes k := t1 k (Nat.le_refl _)
-    have hj1 : Just p s1 k := by
-      obtain ⟨hnv, h⟩ := hj
-      refine ⟨?_, ?_⟩
-      · rintro ⟨n, hn, hv⟩
-        exact hnv ⟨n, by rw [← hk1]; exact hn, by rw [hv, f1.epoch]⟩
-      · rw [hk1, f1.cur]; exact h
-    have hbr1 : Broken s1 k := hbr.frame inv f1 hk1
-    rw [projTfcChanged_false i1 k a.tfc, Bool.or_false]
-    obtain ⟨i3, f13, t13, n3k, e3⟩ := publish_spec np hp hki hke i1 hj1 hbr1
-      (valueChanged s1 k v || hasPending s1 k) a1 tr
+    have hbad1 : Bad s1 k := hbad.frame inv f1 t1
+    have hpj : d.kind = .projection → ∀ d' o nd, (d', o) ∈ a.deps → s1.nodes d' = some nd →
+        nd.kind = .firewall := by
+      intro hkp d' o nd hm hnd
+      have := runProg_reads q (fun x => kindOf p x = some .firewall) d.prog {} s (pf k d hp hkp)
+        (fun e he => by cases he) _ hr (d', o) hm
+      obtain ⟨dd, hpd, hkd, _⟩ := i1.kind d' nd hnd
+      simp only [kindOf, hpd, Option.map_some, Option.some.injEq] at this
+      rw [← hkd]; exact this
+    obtain ⟨i3, f13, t13, n3k, e3⟩ := publish_spec hp hki hke i1 (hwhy.frame f1 t1) hbad1.not_solid
+      hbad1.not_nGood a1 tr hpj
     refine ⟨i3, f1.trans f13, (t1.mono (by komega)).trans t13, ?_, _, n3k, rfl, e3.symm⟩
     apply cur_exec wf hp hki hke tr
     intro d' o' hm
@@ -58,7 +95,8 @@ theorem executeExt_spec {p : Program} (wf : WF p) {k : Key} {d : NodeDef}
   have nnt : (extNode s d).tfc = [] := rfl
   have nnv : (extNode s d).value = d.ext s.world := rfl
   have nnl : (extNode s d).lastVerified = s.epoch := rfl
-  generalize extNode s d = nn at nnk nnd nnt nnv nnl ⊢
+  have nnp : (extNode s d).pendingBP = false := rfl
+  generalize extNode s d = nn at nnk nnd nnt nnv nnl nnp ⊢
   have n3k : (install s k nn).nodes k = some nn := by simp [install, setNode]
   have n3o : ∀ x, x ≠ k → (install s k nn).nodes x = s.nodes x := by
     intro x hx; simp [install, setNode, clearDirtyFrom, hx]
@@ -80,10 +118,18 @@ theorem executeExt_spec {p : Program} (wf : WF p) {k : Key} {d : NodeDef}
       · subst e; rw [n3k] at hx; cases hx
         exact ⟨d, hp, by rw [hi, nnk], fun _ => ⟨nnd, nnt⟩⟩
       · rw [n3o x e] at hx; exact inv.kind x nx hx
-    · intro x nx hx
+    · intro x nx hx hkx d' o' nd' hm hnd'
       by_cases e : x = k
-      · subst e; rw [n3k] at hx; cases hx; rw [nnk]; decide
-      · rw [n3o x e] at hx; exact inv.noProj x nx hx
+      · subst e; rw [n3k] at hx; cases hx; rw [nnk] at hkx; cases hkx
+      · rw [n3o x e] at hx
+        rw [n3o d' (notDep x nx d' o' hx hm)] at hnd'
+        exact inv.pjFw x nx hx hkx d' o' nd' hm hnd'
+    · intro x nx hx hkx d' o' nd' hm hnd' hne
+      by_cases e : x = k
+      · subst e; rw [n3k] at hx; cases hx; rw [nnk] at hkx; cases hkx
+      · rw [n3o x e] at hx
+        rw [n3o d' (notDep x nx d' o' hx hm)] at hnd'
+        exact inv.pjBroken x nx hx hkx d' o' nd' hm hnd' hne
     · intro x nx hx d' o' hm
       by_cases e : x = k
       · subst e; rw [n3k] at hx; cases hx; rw [nnd] at hm; cases hm
@@ -130,7 +176,7 @@ theorem executeExt_spec {p : Program} (wf : WF p) {k : Key} {d : NodeDef}
   have hpins : ∀ x, x ≠ k → pinsOf s3 x = pinsOf s x := by
     intro x e; simp only [pinsOf, n3o x e]
   have f13 : Frame p s s3 := by
-    refine ⟨e3, ?_, ?_, w3, ?_, ?_, ?_⟩
+    refine ⟨e3, ?_, ?_, w3, ?_, ?_, ?_, ?_, ?_⟩
     · funext x
       simp only [inputsOf]
       by_cases e : x = k
@@ -147,24 +193,33 @@ theorem executeExt_spec {p : Program} (wf : WF p) {k : Key} {d : NodeDef}
       · simp only [extRef, hpins x e]
     · intro x nx hsx hx
       have : x ≠ k := fun e => hns (e ▸ hsx)
-      exact ⟨nx, by rw [n3o x this]; exact hx, rfl, rfl, rfl, rfl, rfl⟩
+      exact ⟨nx, by rw [n3o x this]; exact hx, rfl, rfl, rfl, rfl, rfl, id⟩
+    · intro x nx hx _
+      have : x ≠ k := fun e => by subst e; rw [hn] at hx; cases hx
+      exact ⟨nx, by rw [n3o x this]; exact hx, rfl, rfl⟩
+    · intro x nx' hx' hpd
+      by_cases e : x = k
+      · subst e; rw [n3k] at hx'; cases hx'; rw [nnp] at hpd; cases hpd
+      · exact ⟨nx', by rw [← n3o x e]; exact hx', Or.inl hpd⟩
     · intro x
       by_cases e : x = k
       · subst e; exact Or.inr ⟨nn, n3k, by rw [nnl, e3]⟩
       · exact Or.inl (n3o x e)
     · refine ⟨[k], l3, by simp, fun x hx => ?_, fun x hx hx' => ?_⟩
-      · rw [List.mem_singleton] at hx; subst hx; exact ⟨hj, nn, n3k, by rw [nnl, e3]⟩
+      · rw [List.mem_singleton] at hx; subst hx; exact ⟨Or.inl hj, nn, n3k, by rw [nnl, e3]⟩
       · rw [List.mem_singleton]
         false_or_by_contra
         rename_i e
         exact hx' (by rw [n3o x e]; exact hx)
-  refine ⟨i3, f13, fun x hx => n3o x (by komega), ?_, nn, n3k, nnv, by rw [nnl, e3]⟩
+  refine ⟨i3, f13, ⟨fun x hx => n3o x (by komega), fun x n0 h0 hp0 => ?_⟩, ?_, nn, n3k, nnv, by rw [nnl, e3]⟩
+  · have : x ≠ k := fun e => by subst e; rw [hn] at h0; cases h0
+    exact ⟨n0, by rw [n3o x this]; exact h0, hp0⟩
   simp only [cur, evalSpec, hp, hi]
   exact hext
 
 /-- main induction: with fuel above the key, a request by a query caller meets `QPost` and never
     runs out of fuel -/
-theorem queryQ_spec {p : Program} (wf : WF p) (np : NoProj p) :
+theorem queryQ_spec {p : Program} (wf : WF p) (pf : NoProjOverProj p) :
     ∀ fuel ped k, k < fuel → ∀ s, Inv p s → Sat (queryQ p fuel ped k s) (QPost p k s) := by
   intro fuel
   induction fuel with
@@ -184,9 +239,12 @@ theorem queryQ_spec {p : Program} (wf : WF p) (np : NoProj p) :
         cases hi : d.kind with
         | input => simp [Sat]
         | external => exact executeExt_spec wf hp hi inv hn
-        | normal => exact execute_spec wf np hq hp (by rw [hi]; decide) (by rw [hi]; decide) inv hj (Or.inl hn)
-        | firewall => exact execute_spec wf np hq hp (by rw [hi]; decide) (by rw [hi]; decide) inv hj (Or.inl hn)
-        | projection => exact absurd hi (np k d hp)
+        | normal =>
+          exact execute_spec wf pf hq hp (by rw [hi]; decide) (by rw [hi]; decide) inv (Or.inl hj) (Or.inl (Or.inl hn))
+        | firewall =>
+          exact execute_spec wf pf hq hp (by rw [hi]; decide) (by rw [hi]; decide) inv (Or.inl hj) (Or.inl (Or.inl hn))
+        | projection =>
+          exact execute_spec wf pf hq hp (by rw [hi]; decide) (by rw [hi]; decide) inv (Or.inl hj) (Or.inl (Or.inl hn))
     | some n =>
       simp only
       split
@@ -206,6 +264,7 @@ theorem queryQ_spec {p : Program} (wf : WF p) (np : NoProj p) :
           rw [hr] at hrep
           obtain ⟨i1, f1, t1, k1, hf, ht⟩ := hrep
           simp only at i1 f1 t1 k1 hf ht
+          have hv1 : n.lastVerified ≠ s1.epoch := by rw [f1.epoch]; exact hv
           cases b with
           | true =>
             simp only
@@ -217,20 +276,29 @@ theorem queryQ_spec {p : Program} (wf : WF p) (np : NoProj p) :
               refine ⟨?_, Or.inr ⟨n, dd, oo, k1, hm, by rw [f1.cur]; exact hne⟩⟩
               rintro ⟨n', hn', hv'⟩
               rw [k1] at hn'; cases hn'
-              exact hv (by rw [hv', f1.epoch])
+              exact hv1 hv'
             have hbr1 : Broken s1 k := Or.inr ⟨n, dd, oo, nd, k1, hm, hnd, hvne, hver⟩
-            refine (execute_spec wf np hq hp hkin hkex i1 hj1 hbr1).mono ?_
+            refine (execute_spec wf pf hq hp hkin hkex i1 (Or.inl hj1) (Or.inl hbr1)).mono ?_
             rintro ⟨v, s2⟩ ⟨i2, f2, t2, c2, hnode⟩
             exact ⟨i2, f1.trans f2, t1.trans t2, by rw [← f1.cur]; exact c2, hnode⟩
           | false =>
             simp only
             obtain ⟨hall, _, hw⟩ := hf rfl
-            rw [if_neg (fun h => inv.noProj k n hn h.1)]
-            obtain ⟨i2, f2, t2, c2, hnode⟩ := clean_spec wf i1 k1 moved cl hall
-              (fun h => by
-                rcases hw h with h' | h'
-                · cases h'
-                · exact h')
+            have hw' : moved = true → ∃ d o nd, (d, o) ∈ n.deps ∧ s1.nodes d = some nd ∧
+                nd.kind ≠ .firewall ∧ nd.tfc ≠ n.seen d := fun h => by
+              rcases hw h with h' | h'
+              · cases h'
+              · exact h'
+            -- a projection has firewall callees only: its set is never recomputed by the clean path
+            have hnot : ¬ (n.kind = .projection ∧ (cleanNode s1 n moved).tfc ≠ n.tfc) := by
+              rintro ⟨hkp, hne⟩
+              cases hmv : moved with
+              | false => rw [hmv] at hne; simp [cleanNode] at hne
+              | true =>
+                obtain ⟨wd, wo, wnd, wm, wnode, wk, _⟩ := hw' hmv
+                exact wk (i1.pjFw k n k1 hkp wd wo wnd wm wnode)
+            rw [if_neg hnot]
+            obtain ⟨i2, f2, t2, c2, hnode⟩ := clean_spec wf i1 k1 hv1 moved cl hall hw'
             exact ⟨i2, f1.trans f2, t1.trans t2, by rw [← f1.cur]; exact c2, hnode⟩
 
 end Qbice.CoreFw
